@@ -8,5 +8,6 @@ CONSTANTS
   PerConn = FALSE
   NoWait = TRUE
   MaxWait = 0
+  Batch = 0
 INVARIANT RateBound
 CHECK_DEADLOCK FALSE
